@@ -22,7 +22,10 @@ def queries(tier):
     if tier != "quick":
         T += [("scheme5", "", 5, "://h"), ("auth4", "tcp://", 4, ""), ("path4", "http://h/", 4, ""),
               ("path5", "http://h/", 5, ""), ("esc", "http://h/%", 3, "/"), ("dots", "http://h/a/", 4, "/b")]
+    QUICK_T = ("scheme1", "scheme2", "sep", "port3", "auth3", "v6a", "path3", "ipc3", "user")
     for name, pre, n, post in T:
+        if tier == "quick" and name not in QUICK_T:
+            continue
         d = {"PRE": '"%s"' % pre, "POST": '"%s"' % post, "NSYM": n}
         if name.startswith("ipc"):
             d["NO_REJECT"] = 1
